@@ -212,6 +212,31 @@ func (ex *Exec) specCtx(st *State, old *State, fr *Frame) *SpecCtx {
 				}
 			}
 		}
+		// renamed captured variables: a recorded name that is no longer captured stands for the variable now
+		// captured at its recorded position (only when the number of captured variables is unchanged)
+		if ex.P.Locals != nil && ex.spec != nil {
+			if rec := ex.P.Locals[ex.spec.Key+"#free"]; rec != nil && len(rec) == len(fr.fn.FreeVars) {
+				for i, old := range rec {
+					fv := fr.fn.FreeVars[i]
+					if old == fv.Name() {
+						continue
+					}
+					stillCaptured := false
+					for _, o := range fr.fn.FreeVars {
+						if o.Name() == old {
+							stillCaptured = true
+						}
+					}
+					if stillCaptured {
+						continue
+					}
+					if rv, ok := st.regs[fv]; ok {
+						c.names[old] = &SV{V: rv, T: fv.Type()}
+						ex.noteOnce("captured variable " + fv.Name() + " stands for " + old + " of the contract (renamed, matched by position)")
+					}
+				}
+			}
+		}
 	}
 	ex.nfresh++
 	return c
@@ -390,11 +415,18 @@ func (ex *Exec) frameCtx(st *State, fr *Frame) *SpecCtx {
 		if rec := ex.P.Locals[ex.spec.Key]; rec != nil {
 			cur := localNames(fr.fn)
 			if len(cur) == len(rec) {
+				isCur := map[string]bool{}
+				for _, n := range cur {
+					isCur[n] = true
+				}
 				for i, old := range rec {
 					if old == cur[i] {
 						continue
 					}
-					if _, exists := c.names[old]; exists {
+					// the recorded name is still a local of the function: no renaming of that one; a name that is
+					// only bound as a parameter's entry value (a renamed, re-assigned parameter) does not count
+					_, isEntry := ex.entryVals[old]
+					if _, exists := c.names[old]; isCur[old] || (exists && !isEntry) {
 						continue
 					}
 					if v, ok := c.names[cur[i]]; ok {
@@ -1093,6 +1125,13 @@ func (ex *Exec) doReturn(st *State, fr *Frame, rs []*Val, in ssa.Instruction) {
 		ctx.names[fmt.Sprintf("r%d", i)] = sv
 		if res.Len() == 1 {
 			ctx.names["result"] = sv
+		}
+	}
+	// In a postcondition a parameter name denotes the ARGUMENT (its entry value), exactly as at the call sites where
+	// the postcondition is assumed - not what the body may have assigned to the parameter meanwhile.
+	if fr.id == 0 {
+		for n, v := range ex.entryVals {
+			ctx.names[n] = &SV{V: v, T: ex.paramTypes[n]}
 		}
 	}
 	ex.curResults = nil
